@@ -795,5 +795,5 @@ def campaign(col, tier, seed, shard, nshards):
         if unknown:
             col.add_violation(case, unknown)
     col.exhaustive["every_table_sequence_straddling_a_read_boundary_at_every_offset"] = True
-    n = 2400 if tier == "quick" else 40000
+    n = 2400 if tier == "quick" else 320000
     hyp_campaign(col, strategy(), run_case, max(n // nshards, 100), seed * 100 + shard)
